@@ -51,7 +51,50 @@ func parseProg(v any) []dop {
 
 var deserReader = map[string]string{"Num": "ReadNum", "Bool": "ReadBool", "Byte": "ReadByte", "Bytes": "ReadBytes", "InPlace": "ReadBytesInPlace",
 	"VarBytes": "ReadVariableByteSlice", "String": "ReadString", "U256": "ReadUint256", "Time": "ReadTime", "PayLen": "ReadPayloadLength",
-	"Skip": "Skip", "Prefix": "CheckTypePrefix", "Seq": "ReadSequenceOfObjects", "All": "ConsumedAll"}
+	"Skip": "Skip", "Prefix": "CheckTypePrefix", "Seq": "ReadSequenceOfObjects", "All": "ConsumedAll",
+	"Obj": "ReadObject", "Payload": "ReadPayload", "Objs": "ReadSliceOfObjects"}
+
+// fixObj is the Serializable of the Obj/Payload/Objs operations (Deser.tla): tw bytes of type denotation
+// (little endian) followed by bw body bytes.
+type fixObj struct {
+	tw, bw int
+	wire   []byte
+}
+
+var errUnknownType = errors.New("harness: unknown object type")
+
+func (o *fixObj) Deserialize(data []byte, _ serializer.DeSerializationMode, _ interface{}) (int, error) {
+	if len(data) < o.tw+o.bw {
+		return 0, serializer.ErrDeserializationNotEnoughData
+	}
+	o.wire = append([]byte{}, data[:o.tw+o.bw]...)
+	return o.tw + o.bw, nil
+}
+func (o *fixObj) Serialize(serializer.DeSerializationMode, interface{}) ([]byte, error) {
+	return append([]byte{}, o.wire...), nil
+}
+func (o *fixObj) MarshalJSON() ([]byte, error) { return json.Marshal(o.wire) }
+func (o *fixObj) UnmarshalJSON([]byte) error   { return errors.New("not used") }
+
+// objGuard is the read guard: types 1 and 2 are known; without type denotation the guard is asked for 0.
+func objGuard(tw, bw int) serializer.SerializableReadGuardFunc {
+	return func(ty uint32) (serializer.Serializable, error) {
+		if tw > 0 && ty != 1 && ty != 2 {
+			return nil, errUnknownType
+		}
+		return &fixObj{tw: tw, bw: bw}, nil
+	}
+}
+
+func typeDen(w int) serializer.TypeDenotationType {
+	switch w {
+	case 0:
+		return serializer.TypeDenotationNone
+	case 1:
+		return serializer.TypeDenotationByte
+	}
+	return serializer.TypeDenotationUint32
+}
 
 func progString(p []dop) string {
 	s := ""
@@ -70,6 +113,12 @@ func progString(p []dop) string {
 			s += fmt.Sprintf("CheckTypePrefix(%d, %d bytes)", o.B, o.A)
 		case "Seq":
 			s += fmt.Sprintf("ReadSequenceOfObjects(%d-byte prefix, %d-byte elements)", o.A, o.B)
+		case "Obj":
+			s += fmt.Sprintf("ReadObject(%d-byte type, %d-byte body)", o.A, o.B)
+		case "Payload":
+			s += fmt.Sprintf("ReadPayload(%d-byte body)", o.B)
+		case "Objs":
+			s += fmt.Sprintf("ReadSliceOfObjects(%d-byte prefix, %d-byte type, %d-byte body)", o.A, o.B, o.C)
 		default:
 			s += deserReader[o.Op] + "()"
 		}
@@ -95,6 +144,10 @@ func deserErrClass(err error) string {
 		return "TypeMismatch"
 	case errors.Is(err, serializer.ErrDeserializationNotAllConsumed):
 		return "NotAllConsumed"
+	case errors.Is(err, errUnknownType):
+		return "UnknownType"
+	case errors.Is(err, serializer.ErrInvalidBytes):
+		return "InvalidBytes"
 	}
 	return "other: " + err.Error()
 }
@@ -167,6 +220,21 @@ func deserWrite(prog []dop, vals []any, variant int) ([]byte, error) {
 			}
 			s.WriteSliceOfByteSlices(data, serializer.DeSeriModeNoValidation, prefixType(o.A), &serializer.ArrayRules{}, errProd)
 		case "All":
+		case "Obj":
+			s.WriteObject(&fixObj{o.A, o.B, toBytes(v)}, serializer.DeSeriModeNoValidation, nil, func(serializer.Serializable) error { return nil }, errProd)
+		case "Payload":
+			if wire := toBytes(v); len(wire) == 0 {
+				s.WritePayload(nil, serializer.DeSeriModeNoValidation, nil, nil, errProd)
+			} else {
+				s.WritePayload(&fixObj{4, o.B, wire}, serializer.DeSeriModeNoValidation, nil, nil, errProd)
+			}
+		case "Objs":
+			elems, _ := v.([]any)
+			seris := make(serializer.Serializables, len(elems))
+			for j, e := range elems {
+				seris[j] = &fixObj{o.B, o.C, toBytes(e)}
+			}
+			s.WriteSliceOfObjects(seris, serializer.DeSeriModeNoValidation, nil, prefixType(o.A), &serializer.ArrayRules{}, errProd)
 		default:
 			panic("op " + o.Op)
 		}
@@ -319,6 +387,37 @@ func deserRead(prog []dop, src []byte, variant int, iters *int, cap int) (vals [
 		case "All":
 			d.ConsumedAll(func(left int, err error) error { return err })
 			add([]int{})
+		case "Obj":
+			var got serializer.Serializable
+			d.ReadObject(&got, serializer.DeSeriModeNoValidation, nil, typeDen(o.A), objGuard(o.A, o.B), errProd)
+			if fo, ok := got.(*fixObj); ok {
+				add(fromBytes(fo.wire))
+			} else {
+				add([]int{})
+			}
+		case "Payload":
+			var got serializer.Serializable
+			d.ReadPayload(&got, serializer.DeSeriModeNoValidation, nil, objGuard(4, o.B), errProd)
+			if fo, ok := got.(*fixObj); ok {
+				add(fromBytes(fo.wire))
+			} else {
+				add([]int{}) // no payload
+			}
+		case "Objs":
+			elems := [][]int{}
+			rules := &serializer.ArrayRules{Guards: serializer.SerializableGuard{ReadGuard: func(ty uint32) (serializer.Serializable, error) {
+				*iters++
+				if *iters > cap {
+					return nil, fmt.Errorf("harness: iteration cap %d exceeded", cap)
+				}
+				return objGuard(o.B, o.C)(ty)
+			}}}
+			d.ReadSliceOfObjects(func(seris serializer.Serializables) {
+				for _, x := range seris {
+					elems = append(elems, fromBytes(x.(*fixObj).wire))
+				}
+			}, serializer.DeSeriModeNoValidation, nil, prefixType(o.A), typeDen(o.B), rules, errProd)
+			add(elems)
 		default:
 			panic("op " + o.Op)
 		}
@@ -348,6 +447,18 @@ func deserRun(prog []dop, src []byte, variant int, measure bool) deserGot {
 		g.Ok, g.Vals, g.Off = true, vals, off
 	}
 	return g
+}
+
+// deserAllocBound: the C02 bound for one chain. Object operations allocate a Serializable (plus, in a slice of objects, a
+// sub-Deserializer and the harness' copy of the wire bytes) per object that IS in the input: 256 bytes per input byte on top.
+func deserAllocBound(prog []dop, inputLen int) uint64 {
+	b := allocBound(inputLen)
+	for _, o := range prog {
+		if o.Op == "Obj" || o.Op == "Payload" || o.Op == "Objs" {
+			return b + 256*uint64(inputLen)
+		}
+	}
+	return b
 }
 
 func hasZeroWidth(prog []dop) bool {
@@ -491,7 +602,7 @@ func valsMatch(prog []dop, got []any, want []any) bool {
 // the first variable-length one otherwise).
 func culprit(prog []dop) string {
 	for _, o := range prog {
-		if o.Op == "VarBytes" || o.Op == "String" || o.Op == "Seq" {
+		if o.Op == "VarBytes" || o.Op == "String" || o.Op == "Seq" || o.Op == "Payload" || o.Op == "Objs" || o.Op == "Obj" {
 			return deserReader[o.Op]
 		}
 	}
@@ -648,8 +759,8 @@ func cmdDeserTable(args []string) int {
 					if g.Alloc > rep.MaxAlloc {
 						rep.MaxAlloc = g.Alloc
 					}
-					if g.Alloc > allocBound(len(data)) {
-						class, text = "alloc-from-prefix", fmt.Sprintf("allocated %d bytes for a %d-byte input (bound %d)", g.Alloc, len(data), allocBound(len(data)))
+					if g.Alloc > deserAllocBound(prog, len(data)) {
+						class, text = "alloc-from-prefix", fmt.Sprintf("allocated %d bytes for a %d-byte input (bound %d)", g.Alloc, len(data), deserAllocBound(prog, len(data)))
 						allocSeen[key]++
 					}
 				}
@@ -719,7 +830,13 @@ func randomOp(r *rand.Rand) dop {
 		}
 		return 0, 0
 	}
-	switch r.Intn(14) {
+	switch r.Intn(18) {
+	case 14:
+		return dop{"Obj", []int{0, 1, 4}[r.Intn(3)], r.Intn(6), 0}
+	case 15, 16:
+		return dop{"Payload", 0, r.Intn(6), 0}
+	case 17:
+		return dop{"Objs", pw, []int{1, 4}[r.Intn(2)], r.Intn(4)}
 	case 0, 1:
 		return dop{"Num", []int{1, 2, 4, 8}[r.Intn(4)], 0, 0}
 	case 2:
@@ -797,8 +914,32 @@ func randomOpValue(r *rand.Rand, o dop) any {
 			e[i] = randBytes(r, o.B)
 		}
 		return e
+	case "Obj":
+		return randObj(r, o.A, o.B)
+	case "Payload":
+		if r.Intn(4) == 0 || o.B == 0 { // (a payload of only its type is below MinPayloadByteSize: written, but refused by ReadPayload)
+			return []int{}
+		}
+		return randObj(r, 4, o.B)
+	case "Objs":
+		if n > 300 {
+			n = 300
+		}
+		e := make([][]int, n)
+		for i := range e {
+			e[i] = randObj(r, o.B, o.C)
+		}
+		return e
 	}
 	return []int{}
+}
+
+func randObj(r *rand.Rand, tw, bw int) []int {
+	w := make([]int, tw, tw+bw)
+	if tw > 0 {
+		w[0] = 1 + r.Intn(2)
+	}
+	return append(w, randBytes(r, bw)...)
 }
 
 func cmdDeserRecords(args []string) int {
@@ -851,12 +992,24 @@ func cmdDeserRecords(args []string) int {
 		off := 0
 		for j, o := range prog {
 			one, _ := deserWrite([]dop{o}, []any{jv[j]}, variant)
-			if o.Op == "VarBytes" || o.Op == "String" || o.Op == "Seq" {
+			if o.Op == "VarBytes" || o.Op == "String" || o.Op == "Seq" || o.Op == "Objs" {
 				pf = append(pf, pfx{off, o.A})
+			}
+			if o.Op == "Payload" {
+				pf = append(pf, pfx{off, 4})
 			}
 			off += len(one)
 		}
-		switch m := r.Intn(5); {
+		switch m := r.Intn(7); {
+		case m >= 5 && len(pf) > 0: // a small length followed by a short tail
+			p := pf[r.Intn(len(pf))]
+			for j := 0; j < p.w; j++ {
+				data[p.off+j] = 0
+			}
+			data[p.off] = byte(r.Intn(6))
+			if end := p.off + p.w + r.Intn(6); end < len(data) {
+				data = data[:end]
+			}
 		case m == 0 && len(data) > 0:
 			data = data[:r.Intn(len(data))]
 		case m == 1 && len(data) > 0:
@@ -881,7 +1034,7 @@ func cmdDeserRecords(args []string) int {
 			data = toBytes(jsonRound(randBytes(r, r.Intn(12))))
 		}
 		g := deserRun(prog, data, variant, true)
-		if g.Alloc > allocBound(len(data)) {
+		if g.Alloc > deserAllocBound(prog, len(data)) {
 			allocSeen++
 		}
 		al := g.Alloc
@@ -921,7 +1074,7 @@ func cmdDeserOne(args []string) int {
 	}
 	want := parseDeserWant(c.Want)
 	class, text := deserJudge(prog, g, want, len(data))
-	if class == "" && g.Alloc > allocBound(len(data)) {
+	if class == "" && g.Alloc > deserAllocBound(prog, len(data)) {
 		class, text = "alloc-from-prefix", fmt.Sprintf("allocated %d bytes for a %d-byte input", g.Alloc, len(data))
 	}
 	if class != "" {
